@@ -3,6 +3,7 @@ import copy
 import random
 import numpy as np
 from .. import gen, pf, impl, scen
+from ..comp import c09wide as wide
 
 ID = 'C09'
 THEOREMS = [
@@ -76,9 +77,63 @@ def scenarios(seed, tier):
         s['inplace'] = {'first': r2.choice(['optimise', 'optimise', 'setup', 'none']), 'new_grid': r2.random() < 0.5,
                         'permute': r2.random() < 0.3}
         draw_stage2(r2, s)
+        draw_wide(r2, s)
         yield 'gen%d' % i, s
     for cid, s in linked_scenarios(seed, tier):
         yield cid, s
+    for cid, s in wide_scenarios(seed, tier):
+        yield cid, s
+
+
+def finish_case(r2, s, adv_prob=0.3):
+    """what every case of the newer streams carries besides the portfolio: renamings, permutation, in-place options, second stage"""
+    names = [a['name'] for a in scen.all_asset_specs(s)]
+    apool = list(dict.fromkeys(ADV + LK_ADV))
+    pool = (r2.sample(apool, min(len(apool), len(names))) + ['z%d' % k for k in range(len(names))]) if r2.random() < adv_prob else ['z%d' % k for k in range(len(names))]
+    s['amap'] = {nm: pool[k] for k, nm in enumerate(names)}
+    npool = r2.sample(apool, min(len(apool), len(s['nodes']))) + ['y%d' % k for k in range(len(s['nodes']))]
+    s['nmap'] = {nm: npool[k] for k, nm in enumerate(s['nodes'])}
+    perm = list(range(len(s['assets'])))
+    r2.shuffle(perm)
+    s['perm'] = perm
+    s['inplace'] = {'first': r2.choice(['optimise', 'optimise', 'setup', 'none']), 'new_grid': r2.random() < 0.5,
+                    'permute': r2.random() < 0.3}
+    draw_stage2(r2, s)
+
+
+def draw_wide(r2, s, names_prob=0.5, door=True):
+    """drawn AFTER everything else of a case (own generator, so that the rest of the case is what it was): the order the wrapped
+    assets get in the variant permute-inner, the door the variant rename-door goes through, and - as drawn - confusable names
+    instead of the adversarial pool"""
+    rn = random.Random(r2.getrandbits(48))
+    s['iperm'] = rn.getrandbits(32)
+    if door:
+        s['door'] = wide.draw_door(rn)
+    if rn.random() < names_prob:
+        names = [a['name'] for a in scen.all_asset_specs(s)]
+        s['amap'], s['nmap'], s['names'] = wide.draw_names(rn, names, s['nodes'])
+
+
+def wide_scenarios(seed, tier):
+    """streams 'nest' (wrappers around wrappers whose wrapped assets live on different windows) and 'net' (cheap networks with a
+    market per node; every door)"""
+    n, m = (70, 70) if tier == 'quick' else (400, 400)
+    rnd = random.Random(seed * 7919 + 9009)
+    for i in range(n):
+        r2 = random.Random(rnd.getrandbits(48))
+        s = wide.gen_nested(r2, tier, gen_linked=gen_linked)
+        s['stream'] = 'nest'
+        finish_case(r2, s)
+        draw_wide(r2, s, names_prob=0.4, door=s.get('nested') != 'scaled_linked')
+        yield 'nest%d' % i, s
+    for i in range(m):
+        r2 = random.Random(rnd.getrandbits(48))
+        s = wide.gen_network(r2, tier)
+        s['stream'] = 'net'
+        finish_case(r2, s)
+        draw_wide(r2, s, names_prob=0.8)
+        s['doors'] = 'all'
+        yield 'net%d' % i, s
 
 
 # ------------------------------------------------------------------ second stage: re-optimisation with a fixed time window
@@ -312,6 +367,7 @@ def linked_scenarios(seed, tier):
         s['inplace'] = {'first': r2.choice(['optimise', 'optimise', 'setup', 'none']), 'new_grid': r2.random() < 0.5,
                         'permute': r2.random() < 0.3}
         draw_stage2(r2, s)
+        draw_wide(r2, s, names_prob=0.3, door=False)
         yield 'linked%d' % i, s
     for i in range(m):
         r2 = random.Random(rnd.getrandbits(48))
